@@ -17,6 +17,16 @@ def regen(ctx):
     if changed:
         ctx.log("regen: lean/LitexModel/Generated/Tables8b10b.lean CHANGED (tables in the repository differ)")
     ctx.tables_changed = changed
+    # truth tables of the real elaborated netlists over their complete input spaces (kernel-compared with the model)
+    try:
+        nchanged, raw, err = _limited(240, lambda: c17lib.regen_netlist(_mod()))
+    except Exception as e:          # time limit (oscillating / crawling implementation)
+        nchanged, raw, err = False, {}, e
+    ctx.net_raw, ctx.net_err, ctx.netlist_changed = raw, err, nchanged
+    if err is not None:
+        ctx.log("regen: the netlists could not be evaluated (%r): Generated/Netlist8b10b.lean left without tables" % (err,))
+    elif nchanged:
+        ctx.log("regen: lean/LitexModel/Generated/Netlist8b10b.lean CHANGED (the netlists compute something else)")
 
 
 # -- correspondence -------------------------------------------------------------------------------------------
@@ -40,7 +50,8 @@ def exhaustive_functions(ctx):
     mod = _mod()
     dis = []
     for lsb in (0, 1):
-        enc = c17lib.real_encoder_map(mod, bool(lsb))
+        raw = getattr(ctx, "net_raw", None) or {}
+        enc = raw.get("encLsb" if lsb else "encMsb") or c17lib.real_encoder_map(mod, bool(lsb))
         keys = sorted(enc)
         ans = ctx.lean.call_batch(["enc1 %d %d %d %d" % (d, k, disp, lsb) for (d, k, disp) in keys])
         nbad = 0
@@ -67,7 +78,7 @@ def exhaustive_functions(ctx):
                                                          list(c17lib.ref_encode(d, k, disp)), kind="reference"))
             ctx.cov.add_cases("SingleEncoder(msb) vs Widmer-Franaszek equations", 2 * len(c17lib.VALID_SYMBOLS),
                               2 * len(c17lib.VALID_SYMBOLS), exhaustive=nref == 0)
-        dec = c17lib.real_decoder_map(mod, bool(lsb))
+        dec = raw.get("decLsb" if lsb else "decMsb") or c17lib.real_decoder_map(mod, bool(lsb))
         ws = sorted(dec)
         ans = ctx.lean.call_batch(["dec1 %d %d" % (w, lsb) for w in ws])
         nbad = 0
@@ -85,6 +96,84 @@ def exhaustive_functions(ctx):
     sensitivity_self_test(ctx)
     ctx.cov.count("encoder inputs (d,k,disp) x format", 2048)
     ctx.cov.count("decoder inputs x format", 2048)
+    return dis
+
+
+def regen_tie(ctx):
+    """The regenerated netlist tables as the Lean side reads them (`nettab`) against the maps of the real netlists
+    they were written from, the model's entries in the same layout (`modtab`: complete for the single-word tables and
+    the 3/4-word chain tables, sampled for the 2-word one — the kernel compares all of them), the set of code words
+    (`iscode`, all 1024 words against the image of the real encoder) and the comma windows of random symbol sequences
+    with control symbols (`commas` against a scan of the real encoder's words)."""
+    mod = _mod()
+    dis = []
+    raw = getattr(ctx, "net_raw", None) or {}
+    if getattr(ctx, "net_err", None) is not None or not raw:
+        return [{"kind": "correspondence-exception", "instance": "netlist regeneration",
+                 "what": "the real netlists could not be evaluated during regen: %r" % (getattr(ctx, "net_err", None),)}]
+    T, _ = None, None
+    tabs = {}
+    for tag in ("Msb", "Lsb"):
+        enc, dec = raw["enc" + tag], raw["dec" + tag]
+        tabs["enc" + tag] = [enc[(i % 256, (i >> 8) & 1, (i >> 9) & 1)][0] + 1024 * enc[(i % 256, (i >> 8) & 1, (i >> 9) & 1)][1]
+                             for i in range(1024)]
+        tabs["dec" + tag] = [dec[w][0] + 256 * dec[w][1] + 512 * dec[w][2] for w in range(1024)]
+    tabs["chain2"] = [raw["chain2"][(i >> 10, i % 256, (i >> 8) & 1, (i >> 9) & 1)] for i in range(2048)]
+    for n in (3, 4):
+        tabs["chain%d" % n] = [raw["chain%d" % n][(lane, d, k, c)] for lane in range(n) for c in (0, 1)
+                               for (d, k) in c17lib.CHAIN_PROBES]
+    ncase = 0
+    for name in sorted(tabs):
+        vals = tabs[name]
+        idx = list(range(len(vals)))
+        ans = ctx.lean.call_batch(["nettab %s %d" % (name, i) for i in idx])
+        midx = idx if name != "chain2" else sorted(ctx.rng.sample(idx, 192 if ctx.tier == "quick" else 1024))
+        mans = ctx.lean.call_batch(["modtab %s %d" % (name, i) for i in midx])
+        nbad = 0
+        for what, ii, aa in (("generated table", idx, ans), ("model entry", midx, mans)):
+            for i, a in zip(ii, aa):
+                ncase += 1
+                if str(a).strip() != str(vals[i]):
+                    nbad += 1
+                    if nbad <= 2:
+                        dis.append(TableDisagreement("Netlist.%s (%s)" % (name, what), {"index": i}, vals[i], a))
+    ctx.cov.add_cases("regenerated netlist tables: Lean reading + model entries vs the real netlists", ncase, ncase,
+                      exhaustive=not dis)
+    # the set of code words
+    enc = raw["encMsb"]
+    image = {enc[(d, k, c)][0] for (d, k) in c17lib.VALID_SYMBOLS for c in (0, 1)}
+    ans = ctx.lean.call_batch(["iscode %d" % w for w in range(1024)])
+    nbad = 0
+    for w, a in enumerate(ans):
+        if str(a).strip() != str(int(w in image)):
+            nbad += 1
+            if nbad <= 2:
+                dis.append(TableDisagreement("isCodeWord", {"word": w}, int(w in image), a))
+    ctx.cov.add_cases("isCodeWord vs the image of the real SingleEncoder on the 268 symbols", 1024, 1024,
+                      exhaustive=nbad == 0)
+    # comma windows of symbol sequences with control symbols
+    nseq = 150 if ctx.tier == "quick" else 1500
+    reqs, exps = [], []
+    for j in range(nseq):
+        L = ctx.rng.randint(1, 7)
+        syms = [c17lib.random_symbol(ctx.rng, legal_only=True) if ctx.rng.random() < 0.8
+                else (ctx.rng.choice([0xBC, 0x3C, 0xFC]), 1) for _ in range(L)]
+        disp0 = ctx.rng.randint(0, 1)
+        bits, disp = [], disp0
+        for (d, k) in syms:
+            w, disp = enc[(d, k, disp)]
+            bits += c17lib.bits_msb(w)
+        pos = [i for i in range(len(bits)) if tuple(bits[i:i + 7]) in c17lib.COMMAS]
+        reqs.append("commas %d %s" % (disp0, " ".join("%d %d" % s for s in syms)))
+        exps.append(" ".join(str(x) for x in [len(pos)] + pos))
+    ans = ctx.lean.call_batch(reqs)
+    nbad = 0
+    for r, e, a in zip(reqs, exps, ans):
+        if str(a).strip() != e:
+            nbad += 1
+            if nbad <= 2:
+                dis.append(TableDisagreement("comma windows of a symbol sequence", {"call": r}, e, a))
+    ctx.cov.add_cases("comma positions: serial(encodeSeq) vs the real encoder's words", nseq, nseq, exhaustive=False)
     return dis
 
 
@@ -168,6 +257,10 @@ def jobs(tier):
         # beyond the quantifier: 5 lanes (50-bit source, 45-bit sink payload)
         B(lambda: c17lib.EncoderInst(mod, 5, True))
         B(lambda: c17lib.make_stream_inst("codec", mod, 5, "B"))
+        # the theorems are parametric in nwords (`encoderN_chain`, `encoderN_iterated`): 6 and 8 lanes as well
+        B(lambda: c17lib.EncoderInst(mod, 6, False, symbols=c17lib.SYMS4[:2]))
+        B(lambda: c17lib.EncoderInst(mod, 8, True, symbols=c17lib.SYMS4[:2]))
+        B(lambda: c17lib.make_stream_inst("codec", mod, 8, "B"))
     B(lambda: c17lib.DecoderInst(mod, False))
     B(lambda: c17lib.DecoderInst(mod, True))
     return J
@@ -259,6 +352,7 @@ def helper_functions(ctx):
                 dis.append(TableDisagreement("disparity(%d,%d)" % (w, nbits), {"word": w, "nbits": nbits},
                                              mod.disparity(w, nbits), 2 * bin(w).count("1") - nbits, kind="helper"))
                 break
+    dis += build_helpers(ctx, mod)
     model_k = sorted(int(x) for x in ctx.lean.call("ksyms").split())
     if model_k != sorted(mod.K(x, y) for (x, y) in names) or model_k != sorted(c17lib.K_SYMBOLS):
         dis.append(TableDisagreement("control symbol set", {}, sorted(mod.K(x, y) for (x, y) in names), model_k,
@@ -266,6 +360,66 @@ def helper_functions(ctx):
     ctx.cov.add_cases("helpers K/D/disparity and the 12 K symbols through the real codec", ncase, ncase,
                       exhaustive=not dis)
     return dis[:6]
+
+
+def build_helpers(ctx, mod):
+    """The build-time helpers as modelled in Lean (`symK`/`symD`, `disparity`, `reverseTableFlip`, `reverseTable`)
+    against the real Python functions: all K/D arguments, all words of 4/6/10 bits, the table constructions of the
+    module itself and random (also colliding / out-of-range) inputs of the two reverse-table builders."""
+    dis = []
+    n = 0
+    xy = [(x, y) for x in range(32) for y in range(8)]
+    for (x, y), a in zip(xy, ctx.lean.call_batch(["kd %d %d" % p for p in xy])):
+        n += 1
+        if str(a).split() != [str(mod.K(x, y)), str(mod.D(x, y))]:
+            dis.append(TableDisagreement("K/D(%d,%d)" % (x, y), {"x": x, "y": y}, [mod.K(x, y), mod.D(x, y)], a,
+                                         kind="helper"))
+    wn = [(w, nb) for nb in (4, 6, 10) for w in range(1 << nb)]
+    for (w, nb), a in zip(wn, ctx.lean.call_batch(["disparity %d %d" % p for p in wn])):
+        n += 1
+        if str(a).strip() != str(mod.disparity(w, nb)):
+            dis.append(TableDisagreement("disparity(%d,%d)" % (w, nb), {"word": w, "nbits": nb},
+                                         mod.disparity(w, nb), a, kind="helper"))
+            break
+
+    def real(fn, *args):
+        try:
+            return " ".join(str(v) for v in fn(*args))
+        except (ValueError, IndexError):
+            return "err"
+
+    cases = [("revflip", list(mod.table_5b6b), [int(bool(f)) for f in mod.table_5b6b_flip], 6),
+             ("revflip", list(mod.table_3b4b), [int(bool(f)) for f in mod.table_3b4b_flip], 4),
+             ("revtab", list(mod.table_3b4b), None, 4),
+             ("revtab", [~x & 0b1111 for x in mod.table_3b4b], None, 4)]
+    for _ in range(60 if ctx.tier == "quick" else 600):
+        nb = ctx.rng.choice([2, 3, 4, 6])
+        L = ctx.rng.randint(0, min(2 ** nb, 12))
+        if ctx.rng.random() < 0.7:
+            ws = ctx.rng.sample(range(2 ** nb), L)                       # distinct words
+        else:
+            ws = [ctx.rng.randint(0, 2 ** nb + 1) for _ in range(L)]     # collisions / out of range
+        if ctx.rng.random() < 0.5:
+            cases.append(("revtab", ws, None, nb))
+        else:
+            fl = [1 if ctx.rng.random() < 0.3 else 0 for _ in range(ctx.rng.choice([L, L, max(L - 1, 0)]))]
+            cases.append(("revflip", ws, fl, nb))
+    reqs, exps = [], []
+    for kind, ws, fl, nb in cases:
+        if kind == "revtab":
+            reqs.append("revtab %d %s" % (nb, " ".join(map(str, ws))))
+            exps.append(real(mod.reverse_table, ws, nb))
+        else:
+            m = min(len(ws), len(fl))
+            reqs.append("revflip %d %s" % (nb, " ".join("%d %d" % p for p in zip(ws[:m], fl[:m]))))
+            exps.append(real(mod.reverse_table_flip, ws, fl, nb))
+    for r, e, a in zip(reqs, exps, ctx.lean.call_batch(reqs)):
+        n += 1
+        if str(a).strip() != e:
+            dis.append(TableDisagreement("reverse table builder", {"call": r}, e, a, kind="helper"))
+    ctx.cov.add_cases("build-time helpers K/D/disparity/reverse_table(_flip) vs their Lean models", n, n,
+                      exhaustive=False)
+    return dis[:4]
 
 
 def _exc_disagreement(where, e):
@@ -296,7 +450,7 @@ def correspond(ctx):
     from leanproc import LeanDriver
     dis = []
     for name, stage in (("corpus replay", run_corpus), ("exhaustive function tie", exhaustive_functions),
-                        ("helper functions", helper_functions)):
+                        ("helper functions", helper_functions), ("regenerated netlist tables", regen_tie)):
         try:
             dis += _limited(60 if ctx.tier == "quick" else 300, lambda: stage(ctx))
         except Exception as e:
@@ -397,9 +551,12 @@ def construction_probe(mod, only=None):
 def search(ctx, disagreements, proof_info):
     mod = _mod()
     # (1) the finite functions of the real code against the property itself (no model involved)
+    raw = getattr(ctx, "net_raw", None) or {}
     try:
-        enc = getattr(ctx, "real_enc", None) or _limited(60, lambda: c17lib.real_encoder_map(mod, False))
-        dec = getattr(ctx, "real_dec", None) or _limited(60, lambda: c17lib.real_decoder_map(mod, False))
+        enc = (getattr(ctx, "real_enc", None) or raw.get("encMsb") or
+               _limited(60, lambda: c17lib.real_encoder_map(mod, False)))
+        dec = (getattr(ctx, "real_dec", None) or raw.get("decMsb") or
+               _limited(60, lambda: c17lib.real_decoder_map(mod, False)))
         r = c17lib.static_search(enc, dec)
         if r:
             if r["kind"] == "sequence":
@@ -429,6 +586,13 @@ def search(ctx, disagreements, proof_info):
                                                                  "K" if k else "D", x, y)}
     except Exception as e:   # a mutation may stop the modules from elaborating
         ctx.log("static search failed: %r" % (e,))
+    # (1b') the chain probes of the real multi-word Encoder netlists kept by regen
+    try:
+        r = c17lib.chain_probe_search(raw)
+        if r:
+            return r
+    except Exception as e:
+        ctx.log("chain probe search failed: %r" % (e,))
     # (1c) can every wrapper of the quantifier still be built and elaborated?
     r = construction_probe(mod)
     if r:
@@ -452,6 +616,16 @@ def replay(ctx, payload):
             print("VIOLATION property=%s replay=(replayed)" % ctx.prop)
             return 1
         print("sequence no longer violates the property on the current tree")
+        return 0
+    if fi.get("kind") == "chain-probe":
+        n, lane, d, k, c = fi["n"], fi["lane"], fi["d"], fi["k"], fi["c"]
+        got = c17lib.real_chain_map(mod, n, [(d, k)])[(lane, d, k, c)]
+        if got != c17lib.ref_chain_expected(n, lane, d, k, c):
+            print("Encoder(%d) chain probe lane=%d d=%d k=%d c=%d: packed outputs %d, chained single encodings %d" % (
+                n, lane, d, k, c, got, c17lib.ref_chain_expected(n, lane, d, k, c)))
+            print("VIOLATION property=%s replay=(replayed)" % ctx.prop)
+            return 1
+        print("chain probe no longer violates the property on the current tree")
         return 0
     if fi.get("kind") == "construction":
         r = construction_probe(mod, only=(fi["class"], [bool(a) if isinstance(a, bool) else a for a in fi["args"]]))
